@@ -63,6 +63,8 @@ def _arg_char(arg):
     """Model of a constructor argument: returns the character or raises ModelExc."""
     if isinstance(arg, list) and arg and arg[0] == "tok":
         return TOKENS[arg[1]]
+    if isinstance(arg, list) and len(arg) == 2 and arg[0] == "lit" and isinstance(arg[1], str) and len(arg[1]) == 1:
+        return arg[1]          # a one-character Pregex is accepted like a token
     if isinstance(arg, list):
         raise ModelExc("InvalidArgumentTypeException")
     if isinstance(arg, str):
@@ -82,6 +84,8 @@ def model_eval(r, pool=None):
         return ("chr", r[1])
     if op == "tok":
         return ("tok", TOKENS[r[1]])
+    if op == "lit":
+        return ("tok", r[1])
     if op == "Any":
         return ("cls", iv.norm([(0, iv.MAXCP)]), False, "any")
     if op == "named":
